@@ -1128,9 +1128,14 @@ impl Hash for Name {
     fn hash<H: Hasher>(&self, state: &mut H) {
         self.is_fqdn.hash(state);
         // Note: case-insensitive like `PartialEq`
-        self.iter()
-            .flatten()
-            .for_each(|&b| state.write_u8(b.to_ascii_lowercase()));
+        for label in self.iter() {
+            // the length keeps names with the same octets but other label boundaries apart
+            // (`ab.c.` and `a.bc.`), which matters where a hash value stands in for the name
+            state.write_u8(label.len() as u8);
+            label
+                .iter()
+                .for_each(|&b| state.write_u8(b.to_ascii_lowercase()));
+        }
     }
 }
 
